@@ -49,7 +49,13 @@ theorem readSurface_sim {k : Cfg} (hk : k.Agrees) {base : Nat} {s : RS} {d : Dec
       · have hc' : checkLikelyOverflow k.fam cur.w cur.h = false := by simpa using hc
         rw [hc']
         simp only [Bool.not_false, if_true]
-        exact decode_overflow h c _ _ (by simp only [plan, hc', if_true])
+        obtain ⟨_, _, _, _, _, _, hle, hlen⟩ := consume d.iter h.inv hr
+        have hbig : I64MAX < total d.iter := by
+          have h2 : ¬ k.fam.px.surfIdeal cur.w cur.h ≤ ISIZE_MAX := fun hcon =>
+            hc ((checkLikelyOverflow_iff hk.1 _ _).2 hcon)
+          rw [hk.2, ← h.px, ← hlen, ISIZE_MAX_eq] at h2
+          omega
+        exact decode_overflow h c _ _ (by simp only [plan, hc', if_true]) hbig
 
 /-! ### `read_surface_rect` -/
 
@@ -152,7 +158,13 @@ theorem readRect_sim {k : Cfg} (hk : k.Agrees) {base : Nat} {s : RS} {d : Dec} (
     · have hc' : checkLikelyOverflow k.fam cur.w cur.h = false := by simpa using hc
       rw [hc']
       simp only [Bool.not_false, if_true]
-      exact decode_overflow h c _ _ (by simp only [plan, hc', if_true])
+      obtain ⟨_, _, _, _, _, _, hle, hlen⟩ := consume d.iter h.inv hr
+      have hbig : I64MAX < total d.iter := by
+        have h2 : ¬ k.fam.px.surfIdeal cur.w cur.h ≤ ISIZE_MAX := fun hcon =>
+          hc ((checkLikelyOverflow_iff hk.1 _ _).2 hcon)
+        rw [hk.2, ← h.px, ← hlen, ISIZE_MAX_eq] at h2
+        omega
+      exact decode_overflow h c _ _ (by simp only [plan, hc', if_true]) hbig
 
 /-! ### the ideal side on its own -/
 
